@@ -12,8 +12,10 @@ discreteGeodesic call.  From those recorded answers this check builds the script
     states the model computed), sampler results, both checkMotion forms incl. lastValid;
   * all three spaces, with discreteGeodesic itself as the oracle: the index picked by geodesicInterpolate, the state
     returned by interpolate (not for TangentBundle's re-projected pick), checkMotion verdicts / short-circuit / lastValid.
-Atlas / TangentBundle chart logic (psi, phi, polytopes, chart creation) is *not* modelled: those geodesics are held
-to the spec oracle only.
+Since round 2 the Atlas / TangentBundle traversals, samplers and (round 4) the chart bookkeeping are modelled and replayed
+too; since round 10 also the glue of ConstrainedSpaceInformation.h (getMotionStates, TangentBundleSpaceInformation::checkMotion
+with lastValid, ConstrainedValidStateSampler).  Constraints include two that are not finite everywhere (hemi, logg); targets
+along the manifold normal (antipodes) and pairs next to the edge of the domain are generated on purpose.
 
 Spec oracle (Python, from the constraint definitions below, independent of the model, on the implementation's
 outputs): residual of every sampler / interpolate result and (Projected, Atlas) every geodesic state <= tolerance;
